@@ -228,6 +228,8 @@ class IO:
         subset = self._subset(sim, op) if kind == "export" else None
         if op.get("sweep"):
             return self._sweep(sim, op, fmt, subset, kind)
+        if sim.seg_ref is None and tr.segmentation is not None and sim.active("C15"):
+            sim.seg_ref = np.array(tr.segmentation, copy=True)
         reuse = kind == "save" and op.get("reuse_dir") and sim.saves.get("internal") and not op.get("fault")
         if reuse:
             d = sim.saves["internal"]["dir"]
@@ -543,6 +545,10 @@ class IO:
 
         tr = sim.tracks
         g = tr.graph
+        # the masks as the client knows them: the label image as it was when the last
+        # state-changing operation finished (read-only operations in between must not
+        # have altered it - if one did, the next export has the wrong masks)
+        seg_ref = sim.seg_ref if sim.seg_ref is not None else tr.segmentation
         want = set(subset)
         for n in subset:
             want |= nx.ancestors(g, n)
@@ -563,9 +569,9 @@ class IO:
                 import tifffile
 
                 img = tifffile.imread(d / "seg.tif")
-                ref = np.zeros(tr.segmentation.shape, dtype=np.int64)
+                ref = np.zeros(seg_ref.shape, dtype=np.int64)
                 for n in want:
-                    ref[tr.segmentation == n] = tr.get_track_id(n)
+                    ref[seg_ref == n] = tr.get_track_id(n)
                 if img.shape != ref.shape or not np.array_equal(img.astype(np.int64), ref):
                     sim.violate("C15", "C15.seg", f"{fmt} subset: exported label image is not 'masks of exactly the exported nodes (relabelled by track id), background elsewhere'", op, tags)
                     return
@@ -584,7 +590,7 @@ class IO:
                 return
             if tr.segmentation is not None:
                 sg = np.asarray(zarr.open_array(d / "store.zarr" / "segmentation", mode="r")[:])
-                ref = np.where(np.isin(tr.segmentation, sorted(want)), tr.segmentation, 0)
+                ref = np.where(np.isin(seg_ref, sorted(want)), seg_ref, 0)
                 if sg.shape != ref.shape or not np.array_equal(sg, ref):
                     sim.violate("C15", "C15.seg", f"{fmt} subset: exported segmentation is not the original masked to exactly the exported nodes", op, tags)
                     return
